@@ -134,18 +134,18 @@ theorem walk_mirror (n : Nat) (net : Net) (sp : Paths.State) (hR : R n net sp) (
     end `e` of `g`'s chain, at `sendTime` + the sum of the per-hop channel delays, with header
     `last_gate = e`, and the receiving module sees it. -/
 theorem delivered_once_to_far_owner (n : Nat) (net : Net) (sp : Paths.State) (hR : R n net sp)
-    (owner : Nat → Nat) (active : Nat → Bool) (hact : ∀ m, active m = true) (g : Nat) (hg : g < n)
+    (owner : Nat → Nat) (active : Nat → Nat → Bool) (hact : ∀ m t, active m t = true) (sender : Nat) (g : Nat) (hg : g < n)
     (hk : kind net g ≠ .transit) (sendTime : Nat) :
     let hops := walk net n g true
     let e := lastGate g hops
-    send net owner active (n + 1) g sendTime =
-      .handled (owner e) (sendTime + delaySum hops) (some e) true := by
+    send net owner active sender (n + 1) g sendTime =
+      .handled (owner e) (sendTime + delaySum hops) (some e) true sender := by
   have hl := (kind_ne_transit net g).mp hk
   obtain ⟨p, _, h2, ok, _, _, hlen, _⟩ := endpoint_chain n net sp hR g hg hl
   have hw := walk_seg net h2 g true _ n ok.2.1 ok.2.2 hlen
   simp only [hw]
-  have hf := forward_seg net owner active h2 g true _ (n + 1) sendTime (some g) ok.2.1 ok.2.2
-    (by omega) (fun x _ => hact (owner x))
+  have hf := forward_seg net owner active sender h2 g true _ (n + 1) sendTime (some g) ok.2.1 ok.2.2
+    (by omega) (fun x _ t' => hact (owner x) t')
   have hle : (net g).len ≤ 1 := by omega
   simp only [send, hle, if_true, hf, hact]
   cases h2 with
@@ -155,12 +155,12 @@ theorem delivered_once_to_far_owner (n : Nat) (net : Net) (sp : Paths.State) (hR
 /-- the arrival time is the send time plus the sum of the hop delays, and it is the same in both
     directions of a chain -/
 theorem arrival_time_eq_send_plus_sum_of_hop_delays (n : Nat) (net : Net) (sp : Paths.State)
-    (hR : R n net sp) (owner : Nat → Nat) (active : Nat → Bool) (hact : ∀ m, active m = true)
+    (hR : R n net sp) (owner : Nat → Nat) (active : Nat → Nat → Bool) (hact : ∀ m t, active m t = true) (sender : Nat)
     (g : Nat) (hg : g < n) (hk : kind net g ≠ .transit) (t t' : Nat) :
     let hops := walk net n g true
     let e := lastGate g hops
-    send net owner active (n + 1) g t = .handled (owner e) (t + delaySum hops) (some e) true ∧
-    send net owner active (n + 1) e t' = .handled (owner g) (t' + delaySum hops) (some g) true := by
+    send net owner active sender (n + 1) g t = .handled (owner e) (t + delaySum hops) (some e) true sender ∧
+    send net owner active sender (n + 1) e t' = .handled (owner g) (t' + delaySum hops) (some g) true sender := by
   intro hops e
   obtain ⟨hke, _, _, _, hlast, hds⟩ := walk_mirror n net sp hR g hg hk
   have hl := (kind_ne_transit net g).mp hk
@@ -170,23 +170,23 @@ theorem arrival_time_eq_send_plus_sum_of_hop_delays (n : Nat) (net : Net) (sp : 
     have hw := walk_seg net h2 g true _ n ok.2.1 ok.2.2 hlen
     show lastGate g (walk net n g true) ∈ _
     rw [hw]; exact lastGate_mem g h2
-  refine ⟨delivered_once_to_far_owner n net sp hR owner active hact g hg hk t, ?_⟩
-  have := delivered_once_to_far_owner n net sp hR owner active hact e hen hke t'
+  refine ⟨delivered_once_to_far_owner n net sp hR owner active hact sender g hg hk t, ?_⟩
+  have := delivered_once_to_far_owner n net sp hR owner active hact sender e hen hke t'
   simp only at this
   rw [this]
   show Fate.handled (owner (lastGate e (walk net n e true))) (t' + delaySum (walk net n e true))
-    (some (lastGate e (walk net n e true))) true = _
+    (some (lastGate e (walk net n e true))) true sender = _
   rw [hlast, hds]
 
 /-- header fields on delivery: `receiver_module_id` is stamped by the `HandleMessageEvent` of the
     module that owns the far-end gate and `last_gate` is that gate — for every chain length; on a
     standalone gate the message stays in the sending module with `last_gate = g` -/
 theorem header_fields (n : Nat) (net : Net) (sp : Paths.State) (hR : R n net sp)
-    (owner : Nat → Nat) (active : Nat → Bool) (hact : ∀ m, active m = true) (g : Nat) (hg : g < n)
+    (owner : Nat → Nat) (active : Nat → Nat → Bool) (hact : ∀ m t, active m t = true) (sender : Nat) (g : Nat) (hg : g < n)
     (hk : kind net g ≠ .transit) (t : Nat) :
-    ∃ time, send net owner active (n + 1) g t =
-        .handled (owner ((Gate.pathEnd net n g).getD g)) time (some ((Gate.pathEnd net n g).getD g)) true := by
-  have h := delivered_once_to_far_owner n net sp hR owner active hact g hg hk t
+    ∃ time, send net owner active sender (n + 1) g t =
+        .handled (owner ((Gate.pathEnd net n g).getD g)) time (some ((Gate.pathEnd net n g).getD g)) true sender := by
+  have h := delivered_once_to_far_owner n net sp hR owner active hact sender g hg hk t
   simp only at h
   refine ⟨t + delaySum (walk net n g true), ?_⟩
   rw [h]
@@ -205,22 +205,22 @@ theorem header_fields (n : Nat) (net : Net) (sp : Paths.State) (hR : R n net sp)
 /-- a module that is shut down swallows messages passing through its gates: if the owner of any
     gate before the last one is inactive the message is dropped there, never delivered -/
 theorem inactive_owner_drops (n : Nat) (net : Net) (sp : Paths.State) (hR : R n net sp)
-    (owner : Nat → Nat) (active : Nat → Bool) (g : Nat) (hg : g < n)
+    (owner : Nat → Nat) (active : Nat → Nat → Bool) (sender : Nat) (g : Nat) (hg : g < n)
     (hk : kind net g ≠ .transit) (t : Nat)
-    (hex : ∃ x ∈ (gatesOf g (walk net n g true)).dropLast, active (owner x) = false) :
-    ∃ x t', send net owner active (n + 1) g t = .dropped x t' := by
+    (hex : ∃ x ∈ (gatesOf g (walk net n g true)).dropLast, ∀ t', active (owner x) t' = false) :
+    ∃ x t', send net owner active sender (n + 1) g t = .dropped x t' := by
   have hl := (kind_ne_transit net g).mp hk
   obtain ⟨p, _, h2, ok, _, _, hlen, _⟩ := endpoint_chain n net sp hR g hg hl
   have hw := walk_seg net h2 g true _ n ok.2.1 ok.2.2 hlen
   rw [hw] at hex
   have hle : (net g).len ≤ 1 := by omega
-  obtain ⟨x, t', hx⟩ := forward_seg_dropped net owner active h2 g true _ (n + 1) t (some g) ok.2.1
+  obtain ⟨x, t', hx⟩ := forward_seg_dropped net owner active sender h2 g true _ (n + 1) t (some g) ok.2.1
     (by omega) hex
   exact ⟨x, t', by simp only [send, hle, if_true, hx]⟩
 
 /-- sending on a transit gate is refused (`Connection::new` asserts) -/
-theorem send_on_transit_panics (net : Net) (owner : Nat → Nat) (active : Nat → Bool) (fuel g t : Nat)
-    (hk : kind net g = .transit) : send net owner active fuel g t = .sendPanic := by
+theorem send_on_transit_panics (net : Net) (owner : Nat → Nat) (active : Nat → Nat → Bool) (sender fuel g t : Nat)
+    (hk : kind net g = .transit) : send net owner active sender fuel g t = .sendPanic := by
   have : ¬ (net g).len < 2 := fun h => (kind_ne_transit net g).mpr h hk
   have h2 : ¬ (net g).len ≤ 1 := by omega
   simp [send, h2]
@@ -238,9 +238,13 @@ example : Valid 5 demoOps := by unfold Valid; decide
 example : kind demo 0 ≠ .transit ∧ kind demo 1 = .transit ∧ kind demo 4 = .standalone := by decide
 example : (walk demo 5 0 true).map (·.peer) = [1, 2, 3] := by decide
 example : (walk demo 5 3 true).map (·.peer) = [2, 1, 0] := by decide
-example : send demo (fun g => g / 2) (fun _ => true) 6 0 100 = .handled 1 112 (some 3) true := by decide
-example : send demo (fun g => g / 2) (fun _ => true) 6 3 0 = .handled 0 12 (some 0) true := by decide
-example : ∃ x ∈ (gatesOf 0 (walk demo 5 0 true)).dropLast, (fun m => m != 0) ((fun g => g / 2) x) = false :=
-  ⟨0, by decide, by decide⟩
+example : send demo (fun g => g / 2) (fun _ _ => true) 0 6 0 100 = .handled 1 112 (some 3) true 0 := by decide
+example : send demo (fun g => g / 2) (fun _ _ => true) 1 6 3 0 = .handled 0 12 (some 0) true 1 := by decide
+example : ∃ x ∈ (gatesOf 0 (walk demo 5 0 true)).dropLast, ∀ t', (fun m (_ : Nat) => m != 0) ((fun g => g / 2) x) t' = false :=
+  ⟨0, by decide, fun _ => rfl⟩
+/-- module 1 (gates 2, 3) shuts down at t = 104: a message sent at 100 passes gate 2 at 105 and is dropped there;
+    sent from the other end at 90 it passes gates 3 and 2 at 90 / 97 and arrives at module 0 at 102 -/
+example : send demo (fun g => g / 2) (fun m t => m != 1 || t < 104) 0 6 0 100 = .dropped 2 105 := by decide
+example : send demo (fun g => g / 2) (fun m t => m != 1 || t < 104) 1 6 3 90 = .handled 0 102 (some 0) true 1 := by decide
 
 end C08
